@@ -6,6 +6,7 @@
 // Handlers record `s<id>` when they start and `e<id>` when they end; a handler of kind `g` (gate) blocks after `s<id>` until the
 // op `release`, so cancel/schedule can be issued while a handler is running and while collected handlers have not started yet;
 // a handler of kind `x<j>` calls cancel(j) from the loop thread and records the answer (`c<j>=0|1`).
+// `drain <ms>` runs the real drain(ms) on a helper thread whose timed wait is interposed too (see below); `dwait` reports its outcome.
 // After every op the private state is printed: heap array in array order, records and periodic entries sorted by id.
 #include <algorithm>
 #include <atomic>
@@ -76,28 +77,6 @@ static long long realNowNs(clockid_t c)
   return ts.tv_sec * 1000000000LL + ts.tv_nsec;
 }
 
-// Timed waits on condition variables (libstdc++ uses pthread_cond_clockwait(CLOCK_MONOTONIC) for steady_clock deadlines) are
-// given a REAL deadline: the virtual deadline minus the virtual now, from the real now.  Virtual time only moves between ops,
-// so a timed wait inside the code under test ends after the same span of real time instead of "never" (a notify that races the
-// wait - stopTickThread() stores the flag and notifies without the mutex - would otherwise block the join for ever).
-extern "C" int pthread_cond_clockwait(pthread_cond_t* c, pthread_mutex_t* m, clockid_t clk, const struct timespec* abstime)
-{
-  using Fn = int (*)(pthread_cond_t*, pthread_mutex_t*, clockid_t, const struct timespec*);
-  static Fn real = reinterpret_cast<Fn>(dlsym(RTLD_NEXT, "pthread_cond_clockwait"));
-  if (clk == CLOCK_MONOTONIC && g_virtual.load(std::memory_order_acquire))
-  {
-    long long vnow = g_base_ns.load(std::memory_order_relaxed) + g_vns.load(std::memory_order_relaxed);
-    long long rel = abstime->tv_sec * 1000000000LL + abstime->tv_nsec - vnow;
-    if (rel < 0) rel = 0;
-    long long r = realNowNs(CLOCK_MONOTONIC) + rel;
-    struct timespec ts;
-    ts.tv_sec = r / 1000000000LL;
-    ts.tv_nsec = r % 1000000000LL;
-    return real(c, m, clk, &ts);
-  }
-  return real(c, m, clk, abstime);
-}
-
 // ---------------------------------------------------------------------------------------------- stepping the loop thread
 static std::mutex g_m;
 static std::condition_variable g_cv;
@@ -150,6 +129,71 @@ static std::string takeEvents()
   return o.empty() ? "-" : o;
 }
 
+// ---------------------------------------------------------------------------------------------- the thread that calls drain()
+// `drain <ms>` runs the REAL TimerService::drain(ms) on a helper thread.  Its timed wait (libstdc++: pthread_cond_clockwait on
+// CLOCK_MONOTONIC) is interposed: the drainer sleeps in short real slices and is woken - a legitimate spurious wake-up - after
+// every op of the op list (`settle`), so that it re-evaluates its predicate and the (virtual) deadline exactly there: the drain
+// completes, times out (restoring Running/_accepting) or keeps waiting as a deterministic function of the op list.
+static thread_local bool t_is_drainer = false;
+static bool g_d_active = false;      // a drainer thread exists and has not been reaped
+static bool g_d_finished = false;    // drain() has returned
+static bool g_d_blocked = false;     // the drainer is inside the interposed timed wait
+static bool g_d_abort = false;       // teardown: leave the wait at the next slice
+static unsigned long g_d_req = 0;    // settle requests issued by the op thread
+static unsigned long g_d_ack = 0;    // requests after which the drainer has re-evaluated and gone back to waiting
+static std::string g_d_result;       // ok | timeout | refused
+static unsigned long g_d_slices = 0;
+
+extern "C" int pthread_cond_clockwait(pthread_cond_t* c, pthread_mutex_t* m, clockid_t clk, const struct timespec* abstime)
+{
+  using Fn = int (*)(pthread_cond_t*, pthread_mutex_t*, clockid_t, const struct timespec*);
+  static Fn real = reinterpret_cast<Fn>(dlsym(RTLD_NEXT, "pthread_cond_clockwait"));
+  if (!(clk == CLOCK_MONOTONIC && g_virtual.load(std::memory_order_acquire)))
+    return real(c, m, clk, abstime);
+  if (!t_is_drainer)
+  {
+    // any other timed wait (stop()'s internal drain at teardown): the same span, in real time
+    long long vnow = g_base_ns.load(std::memory_order_relaxed) + g_vns.load(std::memory_order_relaxed);
+    long long rel = abstime->tv_sec * 1000000000LL + abstime->tv_nsec - vnow;
+    if (rel < 0) rel = 0;
+    long long r = realNowNs(CLOCK_MONOTONIC) + rel;
+    struct timespec ts;
+    ts.tv_sec = r / 1000000000LL;
+    ts.tv_nsec = r % 1000000000LL;
+    return real(c, m, clk, &ts);
+  }
+  static thread_local unsigned long pending_ack = 0;
+  {
+    std::lock_guard<std::mutex> lk(g_m);
+    g_d_blocked = true;
+    if (pending_ack > g_d_ack) g_d_ack = pending_ack;   // re-evaluated after that request and still not done
+    g_cv.notify_all();
+  }
+  for (;;)
+  {
+    long long r = realNowNs(CLOCK_MONOTONIC) + 200000;   // 0.2 ms slice
+    struct timespec ts;
+    ts.tv_sec = r / 1000000000LL;
+    ts.tv_nsec = r % 1000000000LL;
+    int rc = real(c, m, clk, &ts);
+    std::lock_guard<std::mutex> lk(g_m);
+    ++g_d_slices;
+    if (rc == 0)
+    {
+      // notified by the service (or spurious): back to the caller, which re-evaluates (libstdc++ derives timeout/no_timeout from
+      // the clock, not from this return value)
+      g_d_blocked = false;
+      return 0;
+    }
+    if (g_d_abort || g_d_req > g_d_ack)
+    {
+      pending_ack = g_d_req;
+      g_d_blocked = false;
+      return 0;
+    }
+  }
+}
+
 // ---------------------------------------------------------------------------------------------- watchdog
 static std::atomic<long long> g_op_started_ns{0};
 static void watchdog()
@@ -181,6 +225,7 @@ struct S
 {
   std::unique_ptr<TimerService> svc;
   TimerService* raw = nullptr;   // stays valid while the destructor runs (handlers of the exit path may still call cancel)
+  std::thread drainer;
   std::vector<std::shared_ptr<HInfo>> hs;
 
   std::function<void()> handler(std::shared_ptr<HInfo> h)
@@ -213,6 +258,59 @@ struct S
     };
   }
 
+  // after every op: let a waiting drainer re-evaluate predicate and deadline now (forced spurious wake-up), and wait until it has
+  // either returned from drain() or gone back to waiting
+  void settle()
+  {
+    std::unique_lock<std::mutex> lk(g_m);
+    if (!g_d_active || g_d_finished) return;
+    unsigned long want = ++g_d_req;
+    g_cv.wait(lk, [want] { return g_d_finished || (g_d_blocked && g_d_ack >= want); });
+  }
+
+  // `drain <ms>`: start drain(ms) on the helper thread; answer once it has returned or is waiting
+  std::string startDrain(std::uint32_t ms)
+  {
+    {
+      std::lock_guard<std::mutex> lk(g_m);
+      if (g_d_active) return "d=busy";
+      g_d_active = true;
+      g_d_finished = false;
+      g_d_blocked = false;
+      g_d_result.clear();
+    }
+    TimerService* p = raw;
+    drainer = std::thread([p, ms]() {
+      t_is_drainer = true;
+      auto r = p->drain(ms);
+      std::string res = r.success ? "ok" : (r.message.rfind("Can only drain", 0) == 0 ? "refused" : "timeout");
+      std::lock_guard<std::mutex> lk(g_m);
+      g_d_result = res;
+      g_d_finished = true;
+      g_cv.notify_all();
+    });
+    {
+      std::unique_lock<std::mutex> lk(g_m);
+      g_cv.wait(lk, [] { return g_d_finished || g_d_blocked; });
+      if (!g_d_finished) return "d=wait";
+    }
+    return reap();
+  }
+
+  // `dwait`: report the outcome of the drain if it has returned (the drainer is settled after every op)
+  std::string reap()
+  {
+    {
+      std::lock_guard<std::mutex> lk(g_m);
+      if (!g_d_active) return "d=none";
+      if (!g_d_finished) return "d=blocked";
+    }
+    drainer.join();
+    std::lock_guard<std::mutex> lk(g_m);
+    g_d_active = false;
+    return "d=" + g_d_result;
+  }
+
   void teardown()
   {
     if (!svc) return;
@@ -225,6 +323,20 @@ struct S
     }
     for (auto& h : hs) if (h->id) svc->cancel(h->id);   // nothing live: stop()'s internal drain completes at once
     g_vns.fetch_add(6000000000LL);   // whatever a (mutated) cancel left behind is due or beyond the drain horizon now
+    if (drainer.joinable())
+    {
+      // a drain still waiting: its deadline (<= 5 s) has passed on the virtual clock now; wake it for good
+      {
+        std::lock_guard<std::mutex> lk(g_m);
+        g_d_abort = true;
+      }
+      drainer.join();
+      std::lock_guard<std::mutex> lk(g_m);
+      g_d_active = false;
+      g_d_finished = false;
+      g_d_abort = false;
+      g_d_blocked = false;
+    }
     delete svc.release();
     raw = nullptr;
     hs.clear();
@@ -296,6 +408,13 @@ struct S
       o << ids[i] << ":" << std::chrono::duration_cast<nanoseconds>(p.interval).count() << ":" << ns(p.nextExecution) << ":" << (p.canceled ? 1 : 0);
     }
     o << " exec=" << svc->_executingCallbacks.load() << " acc=" << (svc->_accepting.load() ? 1 : 0);
+    switch (svc->_lifecycleState.load())
+    {
+    case iora::common::LifecycleState::Running: o << " life=R"; break;
+    case iora::common::LifecycleState::Draining: o << " life=D"; break;
+    case iora::common::LifecycleState::Stopped: o << " life=S"; break;
+    default: o << " life=?"; break;
+    }
     return o.str();
   }
 };
@@ -339,7 +458,7 @@ int main()
       if (t.size() == 4 && t[0] == "reset" && parseInt(t[1], a) && parseInt(t[2], b) && parseInt(t[3], c) && a >= 0 && b >= 0)
       {
         st.reset((std::size_t)a, (std::size_t)b, c);
-        return "ok " + st.state();
+        return std::string("ok \x01");
       }
       if (!st.svc) return "bad-op";
       bool blocked;
@@ -361,7 +480,7 @@ int main()
         std::uint64_t id = st.svc->scheduleAt(tp, st.handler(h));
         h->id = id;
         st.hs.push_back(h);
-        return std::to_string(id) + " " + st.state();
+        return std::to_string(id) + " \x01";
       }
       if (t.size() == 3 && t[0] == "per" && parseInt(t[1], a))
       {
@@ -370,12 +489,12 @@ int main()
         std::uint64_t id = st.svc->schedulePeriodic(nanoseconds(a), st.handler(h));
         h->id = id;
         st.hs.push_back(h);
-        return std::to_string(id) + " " + st.state();
+        return std::to_string(id) + " \x01";
       }
       if (t.size() == 2 && t[0] == "cancel" && parseInt(t[1], a) && a >= 0)
       {
         bool r = st.svc->cancel((std::uint64_t)a);
-        return std::string(r ? "1 " : "0 ") + st.state();
+        return std::string(r ? "1 \x01" : "0 \x01");
       }
       if (t.size() == 1 && t[0] == "wake")
       {
@@ -386,7 +505,7 @@ int main()
           g_cv.notify_all();
         }
         waitQuiescent();
-        return "ev=" + takeEvents() + " " + st.state();
+        return "ev=" + takeEvents() + " \x01";
       }
       if (t.size() == 1 && t[0] == "release")
       {
@@ -398,18 +517,28 @@ int main()
           g_cv.notify_all();
         }
         waitQuiescent();
-        return "ev=" + takeEvents() + " " + st.state();
+        return "ev=" + takeEvents() + " \x01";
       }
       if (t.size() == 1 && t[0] == "inflight")
         return std::to_string(st.svc->getInFlightCount());
+      if (t.size() == 2 && t[0] == "drain" && parseInt(t[1], a) && a > 0 && a <= 5000)
+        return st.startDrain(static_cast<std::uint32_t>(a)) + " \x01";
+      if (t.size() == 1 && t[0] == "dwait")
+        return st.reap() + " \x01";
       return "bad-op";
     });
+    if (st.svc && out != "bad-op")
+    {
+      st.settle();
+      auto pos = out.find('\x01');
+      if (pos != std::string::npos) out.replace(pos, 1, st.state());
+    }
     g_op_started_ns.store(0, std::memory_order_release);
     return out;
   });
   g_op_started_ns.store(realNowNs(CLOCK_REALTIME), std::memory_order_release);   // the final teardown is watched too
   st.teardown();
   g_op_started_ns.store(0, std::memory_order_release);
-  std::fprintf(stderr, "epoll_parks=%lu\n", g_epoll_parks);
+  std::fprintf(stderr, "epoll_parks=%lu drain_slices=%lu\n", g_epoll_parks, g_d_slices);
   return rc;
 }
